@@ -162,6 +162,21 @@ CHECKS = {
         "operators outside parser2's grammar, truncated natural subtraction, runs needing > 10 loop iterations or values beyond +-30.",
         "TLA+ operational semantics + reference VC generator, TLC model checking; vector replay and trace validation of imperative/*",
         "6/C20"),
+ "C19": ("model_checking",
+        "TLC explores the integration calculator's calculation machine (start expression + up to 3 rule steps) over all polynomial integrands "
+        "of degree <= 3 in several syntactic shapes, bounds in both orders, derivatives and finite sums, with reference rules on coefficient "
+        "sequences over exact rationals (spec/C19_Calc.tla; invariants SameValueInv, TwoEvaluators, SimplifyIdempotent); every transition, seeded "
+        "random calculations with parameters / conditions / nested binders, ~60 directed side-condition cases and all 1308 recorded example steps "
+        "are executed by the real Rule.eval / normalize / printer / parser and judged in TLA+ (C19_CalcTrace over C19_Eval: exact rational value at "
+        "grid points incl. forward-mode derivatives and interpolated polynomial integrals; NormalizeIdempotent, NormalizePreservesValue; "
+        "PrintParseIdentity on all expression forms).",
+        "RESTRICTED CLAIM: value preservation is judged only on the exactly evaluable fragment (rational constants, + - * /, integer powers, abs, "
+        "polynomial integrands, first-order derivatives, finite sums, EvalAt); nothing transcendental, no improper integrals, limits or series; "
+        "interval bounds (interval.py) are not examined; rules that depend on lemmas / definitions / induction hypotheses are not examined. "
+        "Open finding (known_findings.txt): poly.normalize is not idempotent (two class keys by call site). Trusted: TLC/SANY, lib/Rat.tla, the "
+        "structural codec for integral/expr.py objects.",
+        "TLA+/TLC state machine + vectors replayed into the code + trace validation of code events; 5 spec mutants, 14-event binding self-test",
+        "6/C19, 7"),
  "C08": ("model_checking",
         "TLC model-checks (I) spec/C08_InferImpl.tla: the union-find/reach machine of syntax/infertype.py as coded over all unify "
         "sequences on {bool, fun, list} with invariants AcyclicOrRejected, SubstTerminates, UnifierOK, and (S) spec/C08_Infer.tla: the "
